@@ -51,3 +51,16 @@ for tname in SABA:
             word = W.run(v, rp, ["reb_integrator_saba_part1", "F", "reb_integrator_saba_part2"])
             sym_checks(v, word, "step")
     mk()
+
+
+# time symmetry must also hold when the final half step is deferred (safe mode off): first step, k middle steps and the
+# synchronisation together form a palindromic word that a run with negated step cancels letter by letter
+for coord in COORDS:
+    def mk_unsafe(coord=coord):
+        @P.task("whfast.%s.unsynchronized.symmetric" % coord.lower(), fn="reb_integrator_whfast_synchronize")
+        def _(v):
+            P1, P2, SY = "reb_integrator_whfast_part1", "reb_integrator_whfast_part2", "reb_integrator_whfast_synchronize"
+            r, rp, dt = W.make_sim(v, wh_cfg(coord, "DEFAULT", 0, 0, safe=0, sync=1))
+            word = W.run(v, rp, [P1, "F", P2, P1, "F", P2, P1, "F", P2, SY])
+            sym_checks(v, word, "three_steps_then_sync")
+    mk_unsafe()
